@@ -8,6 +8,7 @@
   authenticates) does not change the abstract store; the pinned code's could (defect D6).
 -/
 import Whawty.Model.Lin
+import Whawty.Lemmas.Lin
 import Whawty.Props.C10
 namespace Whawty.Lin.C11
 open Whawty Whawty.WebApi Whawty.Lin
@@ -174,5 +175,41 @@ theorem linCheckFinal_spec (h : List Op) (s0 : Spec) (final : Spec → Bool) (or
   obtain ⟨hv, hf⟩ := linCheckFinal_sound h s0 final order s hc
   obtain ⟨a, b, c, d⟩ := validLin_spec h s0 s order hv
   exact ⟨a, b, c, d, hf⟩
+
+end Whawty.Lin.C11
+
+namespace Whawty.Lin.C11
+open Whawty Whawty.WebApi Whawty.Lin
+
+/-- **Completeness of the rejection** (`linCheck_complete`): when the exhaustive search
+    `notLinearizable` answers true, NO order whatsoever is a linearization of the history (all
+    operations, real time respected, every response the sequential one) that ends in a state
+    accepted by `final`. A real history rejected this way is therefore a concrete
+    counter-example to C11, not merely a failed search. -/
+theorem rejection_is_conclusive (h : List Op) (s0 : Spec) (final : Spec → Bool)
+    (hn : notLinearizable h s0 final = true) :
+    ¬ ∃ order sf, validLin h s0 order = some sf ∧ final sf = true :=
+  notLinearizable_sound h s0 final hn
+
+/-- The two checkers never contradict each other. -/
+theorem accept_excludes_reject (h : List Op) (s0 : Spec) (final : Spec → Bool) (order : List Nat) (s : Spec)
+    (hc : linCheckFinal h s0 final = some (order, s)) : notLinearizable h s0 final = false := by
+  cases hn : notLinearizable h s0 final with
+  | false => rfl
+  | true =>
+    obtain ⟨hv, hf⟩ := linCheckFinal_sound h s0 final order s hc
+    exact absurd ⟨order, s, hv, hf⟩ (rejection_is_conclusive h s0 final hn)
+
+/- Non-vacuity: login with the old password, remove, add again with a new password — all
+   acknowledged in that real-time order — and an idle store that shows the OLD password
+   (the history S-C11-1 produces) is rejected conclusively; the same history ending in the new
+   password is accepted. -/
+section NonVacuity
+def u1 : Bytes := [117]
+def hABA : List Op :=
+  [⟨.auth u1 [1], .authOk false, 1, 2⟩, ⟨.remove u1, .ok, 3, 4⟩, ⟨.add u1 [2] false, .ok, 5, 6⟩]
+example : notLinearizable hABA [⟨u1, false, [1]⟩] (fun s => s == [⟨u1, false, [1]⟩]) = true := by decide +kernel
+example : notLinearizable hABA [⟨u1, false, [1]⟩] (fun s => s == [⟨u1, false, [2]⟩]) = false := by decide +kernel
+end NonVacuity
 
 end Whawty.Lin.C11
